@@ -136,11 +136,25 @@ func entryRef(vo *VerifyOptions, pk, msg, sig []byte) refEntry {
 // Histories of n additions (each through AddWithOptions, with or without forced non-expansion) then Verify:
 // per-entry results, the overall flag and the batch-only shortcut.
 //
-//verif:ob prop=C09,C18 name=BatchVerifier_Verify mode=bv tags=purego use=gapi split=n:1;force:0..1;ns:64+63 tsplit=n:1..2;force:0..1;ns:64+63+0 sharedro=1
+// hist = 1: the verifier is REUSED - it first held another batch (one admitted entry with an expanded key) and was
+// Reset; nothing of the earlier batch may influence the results.
+//
+//verif:ob prop=C09,C18 name=BatchVerifier_Verify mode=bv tags=purego use=gapi split=n:1;force:0..1;ns:64+63;hist:0..1 tsplit=n:1..2;force:0..1;ns:64+63+0;hist:0..1 sharedro=1
 //verif:ob prop=C09 name=BatchVerifier_Verify_2_unexpanded mode=bv tags=purego use=gapi split=n:2;force:1;ns:64+63 tier=quickonly
 func vh_C09_batch() {
 	n, force, ns0 := verif.Case("n"), verif.Case("force"), verif.Case("ns")
 	v := NewBatchVerifier()
+	if verif.HasCase("hist") && verif.Case("hist") == 1 {
+		pk := make([]byte, 32)
+		verif.AnyBytes("pkP", pk)
+		sig := make([]byte, 64)
+		verif.AnyBytes("sigP", sig)
+		msg := make([]byte, 1)
+		verif.AnyBytes("msgP", msg)
+		verif.Assume(entryRef(VerifyOptionsDefault, pk, msg, sig).admit)
+		v.AddWithOptions(pk, msg, sig, optionsDefault)
+		v.Reset()
+	}
 	if force == 1 {
 		v.ForceNoPublicKeyExpansion()
 	}
